@@ -24,7 +24,7 @@ func genCase(t *rapid.T) Case {
 	c.Cols = gen.Cols(nc, types).Draw(t, "cols")
 	nr := rapid.IntRange(1, 6).Draw(t, "nrows")
 	for i := 0; i < nr; i++ {
-		c.Rows = append(c.Rows, gen.Row(c.Cols, 25, true).Draw(t, "row"))
+		c.Rows = append(c.Rows, gen.MaybeBig(t, gen.Row(c.Cols, 25, true).Draw(t, "row")))
 	}
 	c.Extended = rapid.IntRange(0, 3).Draw(t, "extended?") != 0
 	if c.Extended {
@@ -40,6 +40,7 @@ func genCase(t *rapid.T) Case {
 	}
 	c.Other = c.Extended && rapid.IntRange(0, 2).Draw(t, "other-portal") == 0
 	c.TLS = rapid.IntRange(0, 7).Draw(t, "inside-tls") == 3
+	c.End = rapid.SampledFrom([]string{"", "", "", "", "error", "panic"}).Draw(t, "end")
 	return c
 }
 
